@@ -1,11 +1,13 @@
 """Some tools."""
 
+import re
 from typing import List
 
 
 def to_list(stringlist: str, unquote: bool = True) -> List[str]:
     """Convert a string representing a list to real list."""
-    stringlist = stringlist[1:-1]
+    # items are quoted strings: a comma inside one of them is not a separator
     return [
-        string.strip('"') if unquote else string for string in stringlist.split(",")
+        string[1:-1] if unquote else string
+        for string in re.findall(r'"(?:[^"\\]|\\.)*"', stringlist)
     ]
